@@ -187,13 +187,16 @@ impl Prop for C20 {
                         prop_oneof![Just(0.0), select(vec![0.5, 1.0, 0.25])],
                         proptest::collection::vec(proptest::collection::vec(event(n, &hp), 0..=8), 1..=30),
                         any::<bool>(),
+                        proptest::option::weighted(0.2, (any::<u8>(), any::<u8>())),
                     )
                 })
-                .prop_map(|(machines, pf, batches, trailing_newline)| Case::Run {
-                    machines,
-                    padding_frac: Fx(pf),
-                    batches,
-                    trailing_newline,
+                .prop_map(|(mut machines, pf, batches, trailing_newline, dup)| {
+                    // the same machine listed twice (identical lines) is two machines
+                    if let (Some((i, j)), true) = (dup, machines.len() >= 2) {
+                        let n = machines.len();
+                        machines[j as usize % n] = machines[i as usize % n].clone();
+                    }
+                    Case::Run { machines, padding_frac: Fx(pf), batches, trailing_newline }
                 })
                 .boxed(),
             "long_batch" => (1usize..=4)
@@ -274,6 +277,9 @@ impl Prop for C20 {
                     .collect();
                 let n = built.len();
                 let mut text = built.iter().map(|m| m.serialize()).collect::<Vec<_>>().join("\n");
+                let mut lines: Vec<String> = built.iter().map(|m| m.serialize()).collect();
+                lines.sort();
+                let repeated_line = lines.windows(2).any(|w| w[0] == w[1]);
                 if *trailing_newline && n > 0 {
                     text.push('\n');
                 }
@@ -427,6 +433,9 @@ impl Prop for C20 {
                 }
                 if n == 0 {
                     obs.hit("zero_machines");
+                }
+                if repeated_line {
+                    obs.hit("same_machine_listed_twice");
                 }
                 Ok(())
             }
@@ -680,6 +689,7 @@ impl Prop for C20 {
         vec![
             "asymmetric_flags_written",
             "rejected_call_in_the_middle_of_a_run",
+            "same_machine_listed_twice",
             "action_from_a_batch_longer_than_256",
             "two_or_more_actions",
             "cancel_written",
